@@ -7,6 +7,7 @@ CONSTANTS MaxLinks = 2
  Damage = 1
  Clamp = TRUE
  Trim = FALSE
+ SearchFrom = "dataoffset"
 INVARIANT NoLoopBoundHit
 INVARIANT ProbesInsideFile
 INVARIANT TableSane
